@@ -904,19 +904,26 @@ class DATETIME(NUMERIC):
     def parse_range(self, fieldname, start, end, startexcl, endexcl,
                     boost=1.0):
         from whoosh import query
+        from whoosh.util.times import ceil, floor
 
         if start is None and end is None:
             return query.Every(fieldname, boost=boost)
 
+        # A partial date stands for a whole period: an inclusive bound takes
+        # the period in, an exclusive bound leaves all of it out. (floor and
+        # ceil also accept the plain datetime a fully specified string gives)
         if start is not None:
-            startdt = self._parse_datestring(start).floor()
+            startdt = self._parse_datestring(start)
+            startdt = ceil(startdt) if startexcl else floor(startdt)
             start = datetime_to_long(startdt)
 
         if end is not None:
-            enddt = self._parse_datestring(end).ceil()
+            enddt = self._parse_datestring(end)
+            enddt = floor(enddt) if endexcl else ceil(enddt)
             end = datetime_to_long(enddt)
 
-        return query.NumericRange(fieldname, start, end, boost=boost)
+        return query.NumericRange(fieldname, start, end, startexcl, endexcl,
+                                  boost=boost)
 
 
 class BOOLEAN(FieldType):
